@@ -1,6 +1,7 @@
 import re
 
 from orchestrate.common import run_check
+from checks.c06 import e2e_post, e2e_coverage, _skipped
 
 # ---- census tie: the variant lists of the three error enums in /repo vs. the model's inductive
 # types (the names of the I cases are produced from coq/Model/Spec.v's all_request_errors through
@@ -98,7 +99,7 @@ def _census(lines):
 
 
 def _post(lines, verdicts):
-    return _census(lines)
+    return _census(lines) + e2e_post(lines, "E13")
 
 
 def _extra(lines, verdicts):
@@ -111,7 +112,8 @@ def _extra(lines, verdicts):
             if k > 1:
                 multi += 1
     return {"observations_checked": obs, "cases_with_more_than_one_observed_tie_resolution": multi,
-            "census": "variant lists of RequestError / RequestAttemptError / DbError in /repo == the model's (34 error names)"}
+            "census": "variant lists of RequestError / RequestAttemptError / DbError in /repo == the model's (34 error names)",
+            **e2e_coverage(lines, "E13")}
 
 
 SPEC = {
@@ -133,19 +135,39 @@ SPEC = {
              "Every call is repeated 3 (quick) / 4 (thorough) / 48 (replay) times because select! breaks ties "
              "pseudo-randomly; each distinct observation (X: start times / result / end time; P: begin/end events of the "
              "attempts with times / result / end time) must be a member of the model's set of tie resolutions. "
-             "non-trivial = every case except X/P cases with an empty fiber/target list; distinct = distinct case lines"),
-    "nontrivial": lambda ln: " - |" not in ln,
+             "E13 = end to end: one seeded scenario (260 quick / 2500 thorough / 600 in search rounds; the first 14 are fixed "
+             "shapes: statement not idempotent / idempotent x profile with / without a speculative policy, first answer of "
+             "every page delayed 300 ms, through each of the 7 session APIs) = a mock cluster of 2-4 nodes + one real "
+             "Session + 3-9 logical requests (query_unpaged / execute_unpaged / batch / *_single_page / *_iter, 1-3 pages; "
+             "88 % with SimpleSpeculativeExecutionPolicy max 1-3, interval 30 ms; 60 % idempotent; answers delayed 300 ms "
+             "on the first / later frames, successes, ignorable and definitive ERROR frames; no cut connections); per "
+             "logical request and page the frames the mock received with arrival / answer instants, the call's start / "
+             "return instants, the caller's result and coordinator must be accepted by the extracted checker e2e_check13 "
+             "on a certificate the driver proposes (fibers + a schedule of execute); answer instants closer than 150 ms + "
+             "3 x the largest scheduling stall measured during the request count as simultaneous; "
+             "non-trivial = every case except X/P cases with an empty fiber/target list and E13 scenarios that could not "
+             "start; distinct = distinct case lines"),
+    "nontrivial": lambda ln: " - |" not in ln and not (ln.startswith("E13 ") and _skipped(ln)),
     "trusted_base": [
         "hook scylla::policies::verif_speculative (pass-through to speculative_execution::execute / can_be_ignored, Context constructor)",
         "hook scylla::client::verif_execution_speculative (ProbeTarget: a plan target without a node; run_probe_plan builds RequestExecutionParams and calls run_request_no_side_effects)",
         "Tokio's paused clock (start_paused current-thread runtime): virtual time advances only when the runtime is idle, exactly to the next timer deadline",
         "spec_transient / classify / spec_returned / prop_obs / prop_trace are the reading of the property text (which errors are 'ignorable', what must be returned when, what 'in flight' means)",
         "census scanner in checks/c13.py (regex over the three enum definitions)",
+        "e2e: vh::mocknode (scripted CQL mock cluster; one trace with one clock; an answer is logged before it is written), "
+        "harness/src/e2e_attempts.rs (scenario generator, scripting handler, call start / return instants read from the "
+        "mock's clock, scheduling-stall watchdog on the scenario's single-threaded runtime)",
+        "e2e: the OCaml driver only PROPOSES certificates (fibers, schedule); acceptance is decided by the extracted "
+        "e2e_check13, proved sound against run / spec_returned (C13_e2e_gate, C13_e2e_schedule, C13_e2e_completions); the "
+        "fiber part reuses C06's models (Model/Retry.v, Model/Fiber.v)",
     ],
     "assumptions": [
         "executions terminate (each Complete label is eventually offered): fiber termination itself is C06/C10's subject",
         "select! tie-breaking and the order in which FuturesUnordered yields executions that became ready at the same instant are an oracle: the model enumerates every resolution, the acceptor checks membership",
-        "the end-to-end part of DESIGN (mock-node delays, overlap of frames across nodes) is not built: the gate and the shared plan are tied through probe targets instead",
+        "e2e: timing enters only through one-sided bounds that hold for every scheduling (a speculative fiber's first frame "
+        "arrives no earlier than k intervals after the call started; an answer is logged before it is processed; the call "
+        "returns after the answer it returns) and through the margin for the ORDER of answers; how late the driver returns "
+        "is not judged",
     ],
     "post": _post,
     "extra_coverage": _extra,
